@@ -5,7 +5,8 @@
    response (PLin.G).  Proofs: PLin, Slice, Interp, IsubProofs, Rebin, ConvolveProofs. *)
 From Coq Require Import QArith Qminmax List.
 Import ListNotations.
-From SedV Require Import PLin Xnum Slice Interp Isub IsubProofs Rebin ConvolveM ConvolveProofs.
+From SedV Require Import PLin Xnum Slice Interp Isub IsubProofs Rebin ConvolveM ConvolveProofs NormProofs.
+From Coq Require Import Qabs.
 Open Scope Q_scope.
 
 (* integrate_subset between two limits inside an increasing table = exact integral of the piecewise-linear function *)
@@ -51,6 +52,21 @@ Proof. exact dot_linear. Qed.
 Theorem C06_quadrature : forall e es r rs, conv_var_m (e :: es) (r :: rs) = (e * r) * (e * r) + conv_var_m es rs.
 Proof. reflexivity. Qed.
 
+(* Filter.normalize: the normalised response integrates to 1 in absolute value, in either storage order *)
+Theorem C06_normalised : forall l, ~ trapz l == 0 -> Qabs (trapz (normalize_m l)) == 1.
+Proof. exact normalize_unit. Qed.
+
+(* a normalised non-negative filter (either storage order) lying inside the SED range: sum_i R_i = 1 and a flat spectrum
+   F_nu = c convolves to c *)
+Theorem C06_flat_normalised : forall l nu c,
+  let l' := orient l in
+  incr l' -> (2 <= length l')%nat -> nonneg l -> ~ trapz l == 0 ->
+  (0 < length nu)%nat -> (forall j, (S j < length nu)%nat -> nuat nu j <= nuat nu (S j)) ->
+  nuat nu 0 <= x0 l' -> xn l' <= nuat nu (length nu - 1) ->
+  let r := rebin_m (normalize_m l) nu in
+  qsuml r == 1 /\ conv_m (map (fun _ => c) r) r == c.
+Proof. exact flat_normalised. Qed.
+
 (* the literal index -2 of the unrepaired integrate_subset is refuted: x=[0,1,2,3], y=[0,0,10,0], limits 0..3 *)
 Theorem C06_literal_index_refuted :
   isub_current [(0,0); (1,0); (2,10); (3,0)] 0 3 == 0 /\ isub_fixed [(0,0); (1,0); (2,10); (3,0)] 0 3 == 10
@@ -59,3 +75,9 @@ Proof. exact C06_isub_refuted. Qed.
 
 Example C06_example : incr [(0,0); (1,0); (2,10); (3,0)] /\ qsuml (rebin_m [(3,0); (2,10); (1,0); (0,0)] [0; 3]) == 10.
 Proof. split; [simpl; repeat split; reflexivity|vm_compute; reflexivity]. Qed.
+
+Example C06_normalised_example :
+  let l := [(3,0); (2,10); (1,0)] in
+  incr (orient l) /\ nonneg l /\ ~ trapz l == 0 /\ qsuml (rebin_m (normalize_m l) [0; 2; 4]) == 1
+  /\ conv_m [7; 7; 7] (rebin_m (normalize_m l) [0; 2; 4]) == 7.
+Proof. vm_compute. repeat split; try reflexivity; try (intro H; discriminate H); repeat constructor; intro H; discriminate H. Qed.
